@@ -404,6 +404,31 @@ class _MergedCircuit:
 
         return [c for c in self.components_by_index[idx] if not c_qs.isdisjoint(c.qubits)]
 
+    def can_move_to_latest_moment(
+        self,
+        c: Component,
+        other_mkeys: frozenset[cirq.MeasurementKey],
+        other_ckeys: frozenset[cirq.MeasurementKey],
+    ) -> bool:
+        """Checks that moving component c to the latest moment keeps the order of its keys.
+
+        Args:
+            c: Component to be moved from its moment to the latest moment.
+            other_mkeys: Measurement keys of the other operations in the latest moment.
+            other_ckeys: Control keys of the other operations in the latest moment.
+
+        Returns:
+            True if no component after c's moment, and no other operation in the latest moment,
+            measures a key that c measures or is controlled by, or is controlled by a key that
+            c measures.
+        """
+        if not c.mkeys.isdisjoint(other_mkeys | other_ckeys) or not c.ckeys.isdisjoint(other_mkeys):
+            return False
+        return all(
+            self.mkey_indexes[k][-1] <= c.moment_id and self.ckey_indexes[k][-1] <= c.moment_id
+            for k in c.mkeys
+        ) and all(self.mkey_indexes[k][-1] <= c.moment_id for k in c.ckeys)
+
     def get_cirq_circuit(self, cset: ComponentSet, merged_circuit_op_tag: str) -> cirq.Circuit:
         """Returns the merged circuit.
 
@@ -514,6 +539,9 @@ def _merge_operations_impl(
                 continue
 
             c_qs = set(c.qubits)
+            other_ops = circuits.Moment(o for o in current_moment.operations if o is not op)
+            other_mkeys = protocols.measurement_key_objs(other_ops)
+            other_ckeys = protocols.control_keys(other_ops)
             left_comp = merged_circuit.get_mergeable_components(c, c_qs)
             if len(left_comp) == 1 and c_qs.issubset(left_comp[0].qubits):
                 # Make a shallow copy of the left component data before merge
@@ -531,7 +559,9 @@ def _merge_operations_impl(
                 # Case-2: left_c will merge right into `c` whenever possible.
                 for left_c in left_comp:
                     is_merged = False
-                    if c_qs.issuperset(left_c.qubits):
+                    if c_qs.issuperset(left_c.qubits) and merged_circuit.can_move_to_latest_moment(
+                        left_c, other_mkeys, other_ckeys
+                    ):
                         # Make a shallow copy of the left component data before merge
                         left_c_data = copy.copy(left_c)
                         # Try to merge left_c into c
